@@ -935,6 +935,11 @@ func (m *Module) checkUAdd(w *engine.World, op *engine.Op, tx *engine.TxRecord, 
 	}
 	w.Hit("C02.liquidity_checks")
 	w.Hit("amm.one_sided_add")
+	if a.Token != a.Denom && a.Token != Std {
+		// "liquidity tokens are minted only against deposits": a pool's reserves are its two
+		// coins; a third coin, whether the pool account happens to hold some or not, is no deposit
+		w.Violate("C02", "lpt-minted/uadd/third-coin", "one-sided add of %s%s into the pool %s/%s was accepted and minted %s%s", a.Amt, a.Token, Std, a.Denom, resp.MintToken.Amount, p.Lpt)
+	}
 	minted := resp.MintToken.Amount.BigInt()
 	if minted.Cmp(bigOf(a.MinLiq)) < 0 {
 		w.Violate("C02", "bound/uadd-min-liquidity", "one-sided add minted %s, stated minimum %s", minted, a.MinLiq)
@@ -965,6 +970,10 @@ func (m *Module) checkURemove(w *engine.World, op *engine.Op, tx *engine.TxRecor
 	}
 	w.Hit("C02.liquidity_checks")
 	w.Hit("amm.one_sided_remove")
+	if a.Target != a.Denom && a.Target != Std {
+		// "burned only against withdrawals": of the pool's own two coins
+		w.Violate("C02", "lpt-burned/uremove/third-coin", "one-sided remove of %s liquidity from the pool %s/%s paying out in %s was accepted", a.Liq, Std, a.Denom, a.Target)
+	}
 	liq := bigOf(a.Liq)
 	got := sh.Of(sender, a.Target)
 	if got.Cmp(bigOf(a.MinAmt)) < 0 {
